@@ -19,6 +19,10 @@ def run(ctx) -> None:
              "itertools.product over chunk_ranges(chunks) of the same validated chunks, builds each block from "
              "_partition_args(chunks, lazy=False) through _from_partitioned_args(); ensemble_blocks uses the same two "
              "methods with lazy=True")
+    ctx.rule("R-BLOCKTERM", "(shared with C20) GridScan/LineScan._partition_args describe block k by start_k == start + "
+             "cum_k*sampling, end_k - start_k == sampling*chunk_k, gpts == chunk_k, endpoint == False with cum_k the "
+             "exclusive running sum of the chunk sizes, and the block reader passes each stored key to the constructor "
+             "parameter of the same name: the blocks' positions concatenate to the scan's positions")
     ctx.undecided("that dask's blockwise concatenation reassembles blocks in index order; numerical equality of "
                   "reassembled arrays")
 
@@ -128,3 +132,8 @@ def run(ctx) -> None:
                   f"uses _partition_args(chunks, lazy={lazyval}) and _from_partitioned_args()",
                   f"{fn.short} does not build blocks from _partition_args(chunks, lazy={lazyval}) / "
                   "_from_partitioned_args()", "methods")
+
+    # ---------------- R-BLOCKTERM (scan blocks; the rule lives in c20)
+    from . import c20
+
+    c20._blocks(ctx, repo, repo.cls(c20.SCAN, "LineScan"), repo.cls(c20.SCAN, "GridScan"))
